@@ -46,6 +46,7 @@ def snapshot_app(app) -> dict:
         "boresight": {aid: np.array(a.sensors.boresight, dtype=float).copy() for aid, a in app.sensor_agents.items()},
         "last_tasked": {aid: float(a.sensors.time_last_tasked) for aid, a in app.sensor_agents.items()},
         "engines": {eid: {"targets": list(e.target_list), "sensors": list(e.sensor_list)} for eid, e in app.tasking_engines.items()},
+        "bias_queue": {aid: [ev.id for ev in a.sensor_time_bias_event_queue] for aid, a in app.sensor_agents.items()},
     }
     if not app.scenario_config.propagation.truth_simulation_only:
         snap["estimates"] = {aid: (np.array(e.state_estimate, dtype=float).copy(), np.array(e.error_covariance, dtype=float).copy())
@@ -94,3 +95,47 @@ def install_event_recorder():
     for sub in Event.__subclasses__():
         if "handleEvent" in sub.__dict__:
             wrap_method(sub, "handleEvent", before=make_before(sub.__name__))
+
+
+def install_tasking_recorder():
+    """Semantic endpoints of one engine assessment: the reward the policy documents
+    (``Reward.calculate`` return value), the reward/visibility matrices the decision actually
+    receives, the decision it returns, and the task jobs submitted."""
+    from resonaate.tasking.decisions.decision_base import Decision
+    from resonaate.tasking.engine.centralized_engine import CentralizedTaskingEngine
+    from resonaate.tasking.rewards.reward_base import Reward
+
+    def before_assess(self, *a, **k):
+        STATE["engine"] = self.unique_id
+        rec("assess_begin", engine=self.unique_id, targets=list(self.target_list), sensors=list(self.sensor_list))
+
+    def after_assess(self, tok, res, *a, **k):
+        rec("assess_end", engine=self.unique_id, targets=list(self.target_list), sensors=list(self.sensor_list),
+            visibility=np.array(self.visibility_matrix).copy(), reward=np.array(self.reward_matrix, dtype=float).copy(),
+            decision=np.array(self.decision_matrix).copy(), n_obs=len(self.observations), n_missed=len(self.missed_observations))
+        STATE["engine"] = None
+
+    wrap_method(CentralizedTaskingEngine, "assess", before=before_assess, after=after_assess)
+
+    def before_norm(self, metric_matrix, *a, **k):
+        rec("metrics_raw", engine=STATE.get("engine"), metrics=np.array(metric_matrix, dtype=float).copy(), names=[type(m).__name__ for m in self.metrics])
+
+    wrap_method(Reward, "normalizeMetrics", before=before_norm)
+
+    def after_calc(self, tok, res, metric_matrix, *a, **k):
+        rec("reward_calc", engine=STATE.get("engine"), reward_cls=type(self).__name__, metrics=np.array(metric_matrix, dtype=float).copy(),
+            names=[type(m).__name__ for m in self.metrics], types=[str(getattr(m.metric_type, "value", m.metric_type)) for m in self.metrics],
+            delta=getattr(self, "_delta", None), value=np.array(res, dtype=float).copy())
+
+    for sub in Reward.__subclasses__():
+        if "calculate" in sub.__dict__:
+            wrap_method(sub, "calculate", after=after_calc)
+
+    def before_dec(self, reward_matrix, visibility_matrix, *a, **k):
+        rec("decision_in", engine=STATE.get("engine"), policy=type(self).__name__, reward=np.array(reward_matrix, dtype=float).copy(),
+            visibility=np.array(visibility_matrix).copy())
+
+    def after_dec(self, tok, res, reward_matrix, visibility_matrix, *a, **k):
+        rec("decision_out", engine=STATE.get("engine"), policy=type(self).__name__, decision=np.array(res).copy())
+
+    wrap_method(Decision, "calculate", before=before_dec, after=after_dec)
